@@ -50,7 +50,8 @@ ASSUMPTIONS = [
 	"1e-9 (log2) of the p-value threshold is skipped (inconclusive)",
 	"scores compared at 1e-9 (the kernel is compiled with fastmath)",
 ]
-REQUIRED = {"history_followup_calls": 20, "reference_hits": 200, "hits_in_last_window": 10,
+REQUIRED = {"motifs_with_p_exactly_equal_to_threshold": 3,
+	"history_followup_calls": 20, "reference_hits": 200, "hits_in_last_window": 10,
 	"hits_in_first_window": 10, "thread_variants": 5, "fasta_variants": 5}
 TECHNIQUE = ("runtime monitoring: pure-Python reference scanner + exact tail "
 	"tables vs every observed fimo() result; differential monitors over "
@@ -59,11 +60,13 @@ TECHNIQUE = ("runtime monitoring: pure-Python reference scanner + exact tail "
 TIMEOUT = {"quick": 900, "thorough": 7200}
 
 
-def make_motifs(r, nr, n_motifs):
+def make_motifs(r, nr, n_motifs, exact=False):
 	motifs = {}
 	for i in range(n_motifs):
 		w = r.choice([2, 3, 4, 5, 6, 8, 10, 12, 15, 20])
 		kind = r.choice(["sharp", "sharp", "medium", "flat"])
+		if exact:
+			w, kind = r.choice([2, 3, 4, 5, 6, 8]), "sharp"
 		alpha = {"sharp": 0.1, "medium": 0.5, "flat": 3.0}[kind]
 		pwm = nr.dirichlet([alpha] * 4, size=w).T
 		pwm = numpy.round(pwm, 6)
@@ -80,7 +83,8 @@ def consensus(pwm):
 def make_case(params):
 	r = gen.pyrng("C12", params["cseed"])
 	nr = gen.nprng("C12", params["cseed"])
-	motifs = make_motifs(r, nr, params["n_motifs"])
+	motifs = make_motifs(r, nr, 1 if params.get("exact_threshold")
+		else params["n_motifs"], exact=bool(params.get("exact_threshold")))
 	names = list(motifs)
 	seqs = []
 	equal = params["equal_length"]
@@ -116,6 +120,7 @@ def reference_hits(motifs, seqs, params):
 	log_thr = math.log2(thr)
 	must, may = {}, {}
 	skipped = set()
+	exact_eq = params.setdefault("_exact_eq", set())
 	info = {}
 	for mi, (name, pwm) in enumerate(motifs.items()):
 		for strand in ("+", "-") if params["rc"] else ("+",):
@@ -129,6 +134,9 @@ def reference_hits(motifs, seqs, params):
 				s0 = tlo + int(below[0])
 				near = [abs(float(lt[k]) - log_thr) for k in (below[0],
 					max(0, below[0] - 1))]
+				# equality is only decidable when it is exact in every
+				# implementation: threshold 4^-w and a unique top-scoring
+				# sequence (the tail is a single term, log2 p = -2w exactly)
 				if min(near) < 1e-9:
 					skipped.add(mi)
 			else:
@@ -138,7 +146,17 @@ def reference_hits(motifs, seqs, params):
 				# is built from rounded column scores
 				s0 = thi + 1
 				if abs(float(lt[-1]) - log_thr) < 1e-9:
-					skipped.add(mi)
+					# p of the best sequence EQUALS the threshold.  That is
+					# exact (so decidable) when the threshold is 4^-w and
+					# exactly one sequence attains the top score: then the
+					# top bin is "not below the threshold" and only scores
+					# above (max+1)*bin may be reported.
+					lo_c, counts_ = fr.exact_counts(isc)
+					if not (counts_[-1] == 1 and float(lt[-1]) == log_thr
+						and log_thr == -2.0 * p.shape[1]):
+						skipped.add(mi)
+					else:
+						exact_eq.add(mi)
 			T = float(numpy.float32(s0 * bin_size))
 			w = p.shape[1]
 			for si, seq in enumerate(seqs):
@@ -233,7 +251,8 @@ def compare(rec, cls, params, got, dup, must, may, skipped, info, names, thr,
 				"hit's score bin (%s)" % tag, "hit": list(key), "score": sc,
 				"reported_p": p, "exact_p_of_neighbouring_bins":
 				[2.0 ** a for a in allowed]}, "C12/p-value-field")
-		if not p < thr * (1 + 1e-9):
+		if not p < thr * (1 + 1e-9) or (mi in params.get("_exact_eq", ())
+			and not p < thr):
 			return ({"what": "reported p-value not below the threshold (%s)"
 				% tag, "hit": list(key), "p": p, "threshold": thr},
 				"C12/p-value-above-threshold")
@@ -258,6 +277,11 @@ def run_case(cls, params, rec):
 	motifs, seqs = make_case(params)
 	names = list(motifs)
 	params = dict(params)
+	if params.get("exact_threshold"):
+		# threshold exactly equal to the p-value of the (unique) best
+		# sequence of the motif: 4^-w
+		params["threshold"] = 4.0 ** -next(iter(motifs.values())).shape[1]
+		rec.count("exact_threshold_cases")
 	lens = [len(s) for s in seqs]
 	params["_lens"] = lens
 	tm = {k: torch.from_numpy(v.copy()) for k, v in motifs.items()}
@@ -394,7 +418,8 @@ def run_case(cls, params, rec):
 			1e-3, 1e-4) if t != thr]), ("bin", [b for b in (0.05, 0.1, 0.25,
 			0.5) if b != params["bin"]])]
 		r2.shuffle(alts)
-		for field, choices in alts[:params.get("n_history", 2)]:
+		for field, choices in alts[:0 if params.get("exact_threshold")
+			else params.get("n_history", 2)]:
 			p2 = dict(params)
 			p2[field] = r2.choice(choices)
 			kw2 = dict(bin_size=p2["bin"], eps=p2["eps"],
@@ -526,6 +551,8 @@ def run_case(cls, params, rec):
 	# evidence counters
 	nref = len(must)
 	rec.count("reference_hits", nref)
+	rec.count("motifs_with_p_exactly_equal_to_threshold", len(params.get(
+		"_exact_eq", ())))
 	first = sum(1 for k in must if k[2] == 0)
 	last = sum(1 for k in must if must[k][1] == lens[k[1]])
 	rec.count("hits_in_first_window", first)
@@ -546,7 +573,8 @@ def gen_params(seed, k, tier):
 		"n_seqs": r.randint(1, 6), "equal_length": r.random() < 0.6,
 		"threshold": r.choice([1e-1, 1e-2, 1e-3, 1e-3, 1e-4, 1e-4, 1e-5,
 		1e-6]), "bin": r.choice([0.05, 0.1, 0.1, 0.25, 0.5]),
-		"eps": r.choice([1e-4, 1e-4, 1e-3, 1e-2]), "rc": r.random() < 0.7}
+		"eps": r.choice([1e-4, 1e-4, 1e-3, 1e-2]), "rc": r.random() < 0.7,
+		"exact_threshold": k % 10 == 9}
 
 
 def plan(tier, seed):
